@@ -74,7 +74,7 @@ theorem lexProgram_pos (cfg : Cfg) (s : List Char) :
   have h0 := new_KPos cfg s
   unfold lexProgram
   dsimp only
-  generalize hm : Prog.run cfg (mainLoop cfg (budgetMul * (Lexer.new cfg s).srcLen + 64) 0) (Lexer.new cfg s) = r
+  generalize hm : Prog.run cfg (mainLoop cfg (budgetMul * (Lexer.new cfg s).srcLen + 64) 0 ((Lexer.new cfg s).srcLen, [.default])) (Lexer.new cfg s) = r
   have h1 : KPos r.2 := by rw [← hm]; exact run_KPos cfg _ _ h0
   have s1 : r.2.src = s := by rw [← hm, run_src, new_src]
   obtain ⟨o, L1⟩ := r
